@@ -391,3 +391,241 @@ func (h *H) checkCondRelations(idx, m, n int) {
 	h.check("cond-transpose-relation", "mat.Cond", shape+",norm=1", math.Abs(c1-ctInf), dim*eps*math.Max(c1, ctInf)*math.Max(c1, ctInf), id, replay)
 	h.check("cond-transpose-relation", "mat.Cond", shape+",norm=Inf", math.Abs(cInf-ct1), dim*eps*math.Max(cInf, ct1)*math.Max(cInf, ct1), id, replay)
 }
+
+// ---------------------------------------------------------------------------
+// Exact ties with documented thresholds
+
+func nextUp(x float64) float64   { return math.Nextafter(x, math.Inf(1)) }
+func nextDown(x float64) float64 { return math.Nextafter(x, math.Inf(-1)) }
+
+// signedPermDiag returns the m x n matrix P diag(s) Q with P, Q signed
+// permutations: its singular values are exactly s (len(s) = min(m,n)).
+func signedPermDiag(rng *vrt.Rand, m, n int, s []float64) *ref.M {
+	a := ref.New(m, n)
+	pr, pc := rng.Perm(m), rng.Perm(n)
+	for i, v := range s {
+		if rng.Bool() {
+			v = -v
+		}
+		a.D[pr[i]*n+pc[i]] = v
+	}
+	return a
+}
+
+// checkExactThresholds places parameters exactly on, one ulp below and one
+// ulp above the documented thresholds of rank-like accessors, on matrices
+// whose singular values / pivots / condition numbers are exactly
+// representable powers of two.
+func (h *H) checkExactThresholds(idx int) {
+	rng := h.c.RNG("exact-thresholds", idx)
+	id := idf("exact-thresholds #%d", idx)
+
+	// ---- SVD.Rank(rcond): "count of singular values greater than rcond
+	// scaled by the largest singular value" -------------------------------
+	m, n := 1+rng.Intn(6), 1+rng.Intn(6)
+	k := min(m, n)
+	s := make([]float64, k)
+	e := rng.Range(-3, 3)
+	for i := range s {
+		s[i] = math.Ldexp(1, e)
+		switch rng.Intn(4) {
+		case 0: // repeated value
+		case 1:
+			e -= 2
+		default:
+			e--
+		}
+	}
+	nz := k
+	if idx%3 == 0 && k > 1 {
+		nz = 1 + rng.Intn(k-1)
+		for i := nz; i < k; i++ {
+			s[i] = 0
+		}
+	}
+	if idx%7 == 0 {
+		for i := range s {
+			s[i] = s[0] // orthogonal-like: all singular values equal
+		}
+		nz = k
+	}
+	a := signedPermDiag(rng, m, n, s)
+	replay := replayMats("A", a, "singular values", s)
+	strict := docSays("mat/svd.go", "func (svd *SVD) Rank", "count of singular values greater than rcond scaled by the largest singular value")
+	var svd mat.SVD
+	okf := false
+	if h.try("SVD.Factorize", "exact-values", id, replay, func() { okf = svd.Factorize(makeMat(idx%nMatKinds, a), mat.SVDFull) }) || !okf {
+		return
+	}
+	vals := svd.Values(nil)
+	exact := true
+	for i := range s {
+		if vals[i] != s[i] {
+			exact = false
+		}
+	}
+	h.eval(idf("SVD.Rank|exact-tie|exact=%v|", exact)+shapeClass(m, n), true)
+	if exact && strict {
+		count := func(th float64) int { // values strictly greater than th
+			c := 0
+			for _, v := range s {
+				if v > th {
+					c++
+				}
+			}
+			return c
+		}
+		for i := 0; i < nz; i++ {
+			r0 := s[i] / s[0] // exact: ratio of powers of two
+			for _, rc := range []struct {
+				name string
+				v    float64
+			}{{"on-threshold", r0}, {"ulp-below", nextDown(r0)}, {"ulp-above", nextUp(r0)}} {
+				if rc.v < 0 {
+					continue
+				}
+				want := count(rc.v * s[0])
+				var got int
+				if h.try("SVD.Rank", rc.name, id, replay, func() { got = svd.Rank(rc.v) }) {
+					continue
+				}
+				h.count("boundary", 1)
+				if got != want {
+					h.fail("SVD.Rank", rc.name, "wrong-rank", id, idf("singular values %v, rcond=%v (= s[%d]/s[0] %s): Rank=%d, documented count of values greater than rcond*s[0] is %d", s, rc.v, i, rc.name, got, want), replay)
+					continue
+				}
+				// SolveTo with the rank Rank reports must truncate exactly
+				// the directions the documentation excludes.
+				if got >= 1 && rc.name == "on-threshold" {
+					b := rhs(rng, m, 2)
+					var x mat.Dense
+					if h.try("SVD.SolveTo", "rank-from-Rank", id, replay, func() { svd.SolveTo(&x, makeMat(mkDense, b), got) }) {
+						continue
+					}
+					cut := 0.0
+					if want < k {
+						cut = math.Sqrt(math.Max(s[want], math.Ldexp(s[want-1], -40))*s[want-1]) / s[0]
+						if s[want] == 0 {
+							cut = math.Ldexp(s[want-1], -20) / s[0]
+						}
+					} else {
+						cut = math.Ldexp(s[k-1], -1) / s[0]
+					}
+					xref := ref.Mul(ref.PseudoInverse(a, cut), b)
+					h.check("svd-solve-vs-pseudo-inverse", "SVD.SolveTo", "rank-from-Rank", ref.MaxDiff(ref.FromAt(&x), xref), float64(max(m, n))*eps*(s[0]/s[want-1])*(s[0]/s[want-1])*math.Max(xref.MaxAbs(), b.MaxAbs()/s[0]), id, replay)
+				}
+			}
+		}
+		// rcond = 0 counts the positive values
+		if got := svd.Rank(0); got != nz {
+			h.fail("SVD.Rank", "rcond=0", "wrong-rank", id, idf("Rank(0)=%d, %d positive singular values", got, nz), replay)
+		}
+	}
+
+	// ---- PivotedCholesky tol: Dpstrf "terminates if the pivot is less than
+	// or equal to tol" ------------------------------------------------------
+	if docSays("lapack/gonum/dpstrf.go", "func (impl Implementation) Dpstrf", "The algorithm terminates if the pivot is less than or equal to tol") {
+		np := 2 + rng.Intn(5)
+		d := make([]float64, np)
+		ee := rng.Range(0, 3)
+		for i := range d {
+			d[i] = math.Ldexp(1, ee)
+			ee -= 1 + rng.Intn(2)
+		}
+		perm := rng.Perm(np)
+		am := ref.New(np, np)
+		for i, p := range perm {
+			am.D[p*np+p] = d[i]
+		}
+		rp2 := replayMats("A", am, "pivots", d)
+		for i := 1; i < np; i++ {
+			for _, tc := range []struct {
+				name string
+				v    float64
+				rank int
+			}{{"on-threshold", d[i], i}, {"ulp-below", nextDown(d[i]), i + 1}, {"ulp-above", nextUp(d[i]), i}} {
+				var pc mat.PivotedCholesky
+				var ok bool
+				if h.try("PivotedCholesky.Factorize", "tol-"+tc.name, id, rp2, func() { ok = pc.Factorize(makeSym(idx%nSymKinds, am), tc.v) }) {
+					continue
+				}
+				h.count("boundary", 1)
+				h.eval("PivotedCholesky.Factorize|tol-"+tc.name+"|"+sizeClass(np), true)
+				if pc.Rank() != tc.rank || ok != (tc.rank == np) {
+					h.fail("PivotedCholesky.Rank", "tol-"+tc.name, "wrong-rank", id, idf("pivots %v, tol=%v: Rank=%d ok=%v, want rank %d ok=%v (pivot <= tol terminates)", d, tc.v, pc.Rank(), ok, tc.rank, tc.rank == np), rp2)
+				}
+			}
+		}
+	}
+
+	// ---- ConditionTolerance: "If the condition number is above this value,
+	// the matrix is considered singular": a Condition error exactly when
+	// Cond() > ConditionTolerance, carrying that value ---------------------
+	if docSays("mat/errors.go", "const ConditionTolerance", "If the condition number is above this value, the matrix is considered singular") {
+		nc := 2 + rng.Intn(4)
+		for _, small := range []float64{math.Ldexp(1, -52), math.Ldexp(1, -53), math.Ldexp(1, -54), 1e-16, nextDown(1e-16), nextUp(1e-16), math.Ldexp(1, -60)} {
+			dm := ref.New(nc, nc)
+			pos := idx % nc
+			for i := 0; i < nc; i++ {
+				dm.D[i*nc+i] = 1
+			}
+			dm.D[pos*nc+pos] = small
+			rp3 := replayMats("A", dm)
+			b := makeMat(mkDense, rhs(rng, nc, 1))
+			type cs struct {
+				name string
+				cond float64
+				err  error
+			}
+			var cases []cs
+			h.try("condition-tolerance", "-", id, rp3, func() {
+				var lu mat.LU
+				lu.Factorize(makeMat(mkDense, dm))
+				var x mat.Dense
+				cases = append(cases, cs{"LU", lu.Cond(), lu.SolveTo(&x, false, b)})
+				var ch mat.Cholesky
+				if ch.Factorize(makeSym(skSym, dm)) {
+					var y mat.Dense
+					cases = append(cases, cs{"Cholesky", ch.Cond(), ch.SolveTo(&y, b)})
+				}
+				var bc mat.BandCholesky
+				if bc.Factorize(makeSymBand(dm, 0)) {
+					var y mat.Dense
+					cases = append(cases, cs{"BandCholesky", bc.Cond(), bc.SolveTo(&y, b)})
+				}
+				var pc mat.PivotedCholesky
+				if pc.Factorize(makeSym(skSym, dm), 0) {
+					var y mat.Dense
+					cases = append(cases, cs{"PivotedCholesky", pc.Cond(), pc.SolveTo(&y, b)})
+				}
+				var qr mat.QR
+				qr.Factorize(makeMat(mkDense, dm))
+				var z mat.Dense
+				cases = append(cases, cs{"QR", qr.Cond(), qr.SolveTo(&z, false, b)})
+				var lq mat.LQ
+				lq.Factorize(makeMat(mkDense, dm))
+				var w mat.Dense
+				cases = append(cases, cs{"LQ", lq.Cond(), lq.SolveTo(&w, false, b)})
+			})
+			h.count("boundary", 2*len(cases))
+			h.eval("ConditionTolerance|boundary|"+sizeClass(nc), true)
+			want := 1 / small
+			for _, c := range cases {
+				if math.Abs(c.cond-want) > 1e-12*want {
+					h.fail(c.name+".Cond", "diagonal", "inexact-for-diagonal", id, idf("Cond=%v for diag with entries 1 and %v (condition %v)", c.cond, small, want), rp3)
+					continue
+				}
+				ce, isC := isCondition(c.err)
+				above := c.cond > mat.ConditionTolerance
+				switch {
+				case above && !isC:
+					h.fail(c.name+".SolveTo", "condition-tolerance", "no-condition-error-above-tolerance", id, idf("Cond()=%v > ConditionTolerance, err=%v", c.cond, c.err), rp3)
+				case !above && c.err != nil:
+					h.fail(c.name+".SolveTo", "condition-tolerance", "condition-error-not-above-tolerance", id, idf("Cond()=%v is not above ConditionTolerance, err=%v", c.cond, c.err), rp3)
+				case above && float64(ce) != c.cond:
+					h.fail(c.name+".SolveTo", "condition-tolerance", "error-value-differs-from-Cond", id, idf("Cond()=%v, error carries %v", c.cond, float64(ce)), rp3)
+				}
+			}
+		}
+	}
+}
